@@ -12,4 +12,5 @@ pub mod stmt_spec;
 pub mod stmt_gen;
 pub mod stmt_params;
 pub mod stmt_ref;
+pub mod translit;
 pub mod props;
